@@ -8,6 +8,7 @@ asymmetric input) and agreement with the finite entries of distance_bin / breadt
 """
 import sys
 from common import *  # noqa
+sys.path.insert(0, os.path.join(VERIF, 'translate')); import cores  # noqa: E402
 
 PID = 'C16'
 T_CALL = 3.0
@@ -360,7 +361,13 @@ def main():
                       'asymmetric matrices as malformed stream; non-trivial = distinct matrix with >= 2 components of which one has >= 2 nodes')
     ck.assumptions += ['symmetric input (asymmetric input only has to be rejected)',
                        'agreement with distance_bin / breadthdist / reachdist is judged on the binarised network with empty diagonal (their documented domain), off-diagonal pairs only']
+    # T-gen: re-extract the core update steps from /repo's current source (translate/cores.py); the generated
+    # obligations say the extracted IR is the reference program whose interpreter is proved equal to the model
+    ck.cov['cores'] = cores.generate(families=['comp'])
+    for p_ in ck.cov['cores']['problems']:
+        ck.corr_break('core extractor (translate/cores.py)', p_)
     ok = ck.lean_gate(['BctVerif.Props.C16'], extra_modules=['BctVerif.Model.Comp'])
+    ck.lean_gate([], gen_modules=['BctVerif.Gen.CoresComp'])
     if ck.tier == 'thorough' and ok:
         ck.leanchecker(['BctVerif.Props.C16', 'BctVerif.Model.Comp'])
     if ck.replay:
